@@ -1,6 +1,7 @@
 /-
   Property C07 — a diff reports only real differences: no no-op, no redundant hunk.
-  Statement file (proofs in JdProofs/RealDiff.lean, namespace `Jd.Real`).
+  Statement file (proofs in JdProofs/RealDiff.lean, namespace `Jd.Real`: the LIST reading, sections
+  0–5; JdProofs/RealDiffSet.lean, namespace `Jd.RealS`: the SET and MULTISET readings, section 6).
 
   Model side: `diffM o a b` (JdModel/Diff.lean) is `a.Diff(b, options...)`; `diffNode o m a b p` is
   the recursive `diff` of one node under the path prefix `p` (`m`: merge strategy); `equals o x y` is
@@ -62,14 +63,72 @@
        (elements are matched by hash code; with a collision the diff is not even correct, C01).
     `Good x` (clause 4) = `listDoc` ∧ `wf` ∧ `finiteNums` ∧ `memOK`, the domain of C01.
 
+  SET AND MULTISET READINGS (section 6; strict strategy, no SetKeys option, no Precision)
+    Domain: every option list `o` with `DES.SetReading o` (`dispatchTag o = .set ∧ keysOf o = none`, or
+    `dispatchTag o = .mset`), `precOf o = 0`, `isMerge o = false` — in particular `[.set]` and `[.mset]`
+    (`setmodes_all_items`); documents as read from text (`rawDoc`: every array a plain `jsonArray`; a
+    typed `jsonSet` / `jsonList` node is replaced wholesale, `DES.Witness.typed_set_left_is_excluded`)
+    with sorted unique keys (`wf`, what a Go map guarantees). FULL DEPTH: arrays nested in objects
+    and in arrays, hunks below keys and below keyed set members.
+    Vocabulary: `RealS.navPath q` — `q` consists of object keys and `{"k":v}` elements;
+    `RealS.navS o a q` — what `a` holds at `q`: a key enters an object member, a `{"k":v}` element
+    enters the LAST member of an array that has the identity of the object `{"k":v}` (the member
+    `jsonSet.diff` matched: its Go map keeps the last bearer of a hash code); on key paths it is
+    `getAt` (`setmodes_nav_on_key_paths`). `identOf o x` is the 8-byte identity of a set member
+    (= `hashCode o x` without SetKeys).
+    `RealS.HunkReal o a b p h` (every hunk, `setmodes_hunk_real`) is one of
+      `value q`  `h.path = p ++ q`, no context; `h` replaces what `a` holds at `q` by what `b` holds
+                 there (`Real.RealOpt`, the seven clauses of `keyed_hunk_real`; the removed value is
+                 LITERALLY what `a` holds);
+      `set q xs ys` / `mset q xs ys`  `h.path = p ++ q ++ [{}]` / `[[]]`, `a` holds the array `xs` at `q`,
+                 `b` holds `ys`, and the hunk is a real set / multiset hunk of the two arrays —
+                 written out in `set_hunk_located`, `multiset_hunk_located`.
+    WHICH ITEMS NEED WHICH HASH HYPOTHESIS
+    * NO hash and NO float hypothesis — "removed values are present in a, added values in b, at the
+      addressed location", "what it removes differs from what it adds" by identity / hash code, "no
+      hunk is empty": `setmodes_hunk_real`, `set_hunk_located`, `multiset_hunk_located`,
+      `set_hunk_removed_added_apart`, `multiset_hunk_removed_added_apart`, `setmodes_no_empty_hunk`
+      (`DPL.memOK`: no void object member; model-only exception `empty_hunk_void_member_witness`).
+      The diff picks the values it reports out of the two arrays and compares identities; whatever
+      aliasing there is, the reported values are members and their identities are apart.
+    * `FloatEq0` only (numbers that are `Equals` hash alike; `DocOk`: plain arrays, sorted keys,
+      finite numbers, no `-0`) — the `Equals` forms: `setmodes_removed_not_equals_added`,
+      `set_hunk_no_counterpart` (a removed member is `Equals` to NO member of the other array). They
+      use "`Equals` ⇒ same hash code" only, which holds without any no-collision hypothesis.
+    * `DES.DiffFaithful o SA SB` (decidable: `DES.diffFaithful_of_check`) — for a node of `SA` and a node
+      of `SB` with the same hash code: two arrays were hashed from the same member hash codes (no
+      FNV collision) and, SET reading only, two objects are `Equals` (no collision and no alias
+      between object members of sets). Needed by
+        "equal sub-documents are never mentioned": `setmodes_equal_subdocument_not_mentioned`,
+           `setmodes_equal_member_not_mentioned` — on the two equal values only;
+        "no hunk is redundant": `setmodes_no_redundant_hunk` — on the two documents; about the
+           LIBRARY's `Patch` (`patchAll sw`, either variant of the keyed-member branch), ALL
+           documents as read from text; `…_hashFaithful`: the same under the hypothesis family of
+           C04 / C01 set modes (`setDoc`, `HashFaithful`, `FloatEq0`).
+      WITHOUT it both items are FALSE ON THE CODE (witnesses replayed on the Go library) — the class
+      of the known finding KF-C04-alias (`Equals` and the set diff compare 64-bit hash codes):
+        `equal_member_mentioned_alias_witness`  `{"m":[{"a":""}]}` / `{"m":[{"a":[]}]}`, SET: the members
+            at `m` are `Equals` (the empty string and the empty array hash alike) and the diff has a
+            hunk below `m`;
+        `redundant_hunk_alias_witness`  `[{"a":""}]` → `[{"a":[]}]`, SET: the single hunk is redundant,
+            the empty patch already gives a document `Equals` to the target;
+        `redundant_hunk_fnv_collision_witness`  NO alias, a GENUINE FNV-1a 64 collision:
+            `["aedb68afb","b7cdeb749"]` / `["a568b3ad2","b76a57d20"]`, SET and MULTISET: one hunk (two
+            members removed, two added), redundant because the two arrays have the same hash code.
+      These are consequences of the known finding, not new defects.
+
   WHAT IS NOT PROVED (covered by correspondence and by the leave-one-out oracle of ./check C07 only)
-    * SET / MULTISET / SetKeys readings and the MERGE strategy (except clause 0);
+    * the SetKeys option in the SET reading (`keysOf o ≠ none`), a Precision option, and the MERGE
+      strategy (except clause 0), in every reading;
     * list hunks whose elements are CONTAINERS of the same kind (a sub-diff inside a list: the index
       in the path is an index of the partially patched array) — clauses 2, 3 and 4 ask `scalars`;
     * "no redundant hunk" for OBJECT diffs and nested containers; clause 4 is about the reference
       interpreter `applyStrictAll` (the library's `Patch` equals it on these hunks by C03).
 -/
 import JdProofs.RealDiff
+import JdProofs.RealDiffSet
+
+set_option autoImplicit false
 
 namespace Jd.Props.C07
 open Jd Jd.Spec Jd.DPL Jd.Real
@@ -319,5 +378,290 @@ example : ∀ h ∈ diffM [] exA exB, [PathElem.key "k"] <+: h.path →
       (by decide) (q := [.key "k"]) (by decide) (t := .raw) (t' := .raw) (xs := [.bool true])
       (ys := [.bool false]) (by simp [getAt, exA, alookup]) (by simp [getAt, exB, alookup])
       (by decide) h hm hq).2.2
+
+/-! ## 6. SET and MULTISET readings (strict strategy, no SetKeys option, no Precision)
+
+  Names of `Jd.RealS` and `Jd.DES` are written qualified (`Jd.Real` has theorems of the same names for
+  the list reading); `Jd.subterms x` is the list of all nodes of `x`. -/
+
+/-- on key paths the navigation of the set readings is `getAt` of sections 1–5 -/
+theorem setmodes_nav_on_key_paths (o : Opts) (q : Path) (hq : keysOnly q = true) (n : Json) :
+    RealS.navS o n q = getAt n q :=
+  RealS.navS_keys o q hq n
+
+/-- **clauses 1 + 2, every hunk, any depth, NO hash hypothesis**: every hunk of `a.Diff(b)` is
+    `RealS.HunkReal`: a value replacement at a location reached through keys and keyed set members,
+    or a real set / multiset hunk of the two arrays held at such a location (header) -/
+theorem setmodes_hunk_real {o : Opts} (hm : DES.SetReading o) (hp : precOf o = 0)
+    (hmg : isMerge o = false) {a b : Json} (hr : a.rawDoc = true) (hw : a.wf = true)
+    (hrb : b.rawDoc = true) (hwb : b.wf = true) :
+    ∀ h ∈ diffM o a b, RealS.HunkReal o a b [] h :=
+  RealS.diffM_hunk_real hm hp hmg hr hw hrb hwb
+
+/-- **a SET hunk, located by its own path** (`RealS.SetHunkReal`, written out). A hunk of `a.Diff(b)`
+    with path `q ++ [{}]`: `a` holds an array `xs` at `q`, `b` an array `ys`; every removed value is a
+    MEMBER of `xs`, every added value a member of `ys`; the identities of the removed values are
+    exactly the identities present in `xs` and absent from `ys`, each once; symmetrically for the
+    added values; the hunk has no context lines and is not empty -/
+theorem set_hunk_located {o : Opts} (hm : DES.SetReading o) (hp : precOf o = 0)
+    (hmg : isMerge o = false) {a b : Json} (hr : a.rawDoc = true) (hw : a.wf = true)
+    (hrb : b.rawDoc = true) (hwb : b.wf = true) {h : Hunk} (hh : h ∈ diffM o a b) {q : Path}
+    (hpath : h.path = q ++ [.set]) :
+    ∃ xs ys, RealS.navS o a q = some (.arr .raw xs) ∧ RealS.navS o b q = some (.arr .raw ys) ∧
+      (∀ z ∈ h.remove, z ∈ xs) ∧ (∀ z ∈ h.add, z ∈ ys) ∧
+      (∀ c, c ∈ h.remove.map (identOf o) ↔ c ∈ xs.map (identOf o) ∧ c ∉ ys.map (identOf o)) ∧
+      (∀ c, c ∈ h.add.map (identOf o) ↔ c ∈ ys.map (identOf o) ∧ c ∉ xs.map (identOf o)) ∧
+      (h.remove.map (identOf o)).Nodup ∧ (h.add.map (identOf o)).Nodup ∧
+      (h.remove ≠ [] ∨ h.add ≠ []) ∧ h.before = [] ∧ h.after = [] ∧ h.merge = false := by
+  obtain ⟨xs, ys, na, nb, H⟩ := RealS.diffM_set_hunk_members hm hp hmg hr hw hrb hwb hh hpath
+  exact ⟨xs, ys, na, nb, H.rem_mem, H.add_mem, H.rem_ids, H.add_ids, H.rem_nodup, H.add_nodup,
+    H.nonempty, H.before, H.after, H.merge⟩
+
+/-- **a MULTISET hunk, located by its own path** (`RealS.MsetHunkReal`, written out). A hunk with
+    path `q ++ [[]]`: removed values are members of the array `a` holds at `q`, added values members
+    of the array `b` holds there, and for every hash code `c` the hunk removes exactly
+    `count c xs - count c ys` values with that hash code and adds `count c ys - count c xs` -/
+theorem multiset_hunk_located {o : Opts} (hm : DES.SetReading o) (hp : precOf o = 0)
+    (hmg : isMerge o = false) {a b : Json} (hr : a.rawDoc = true) (hw : a.wf = true)
+    (hrb : b.rawDoc = true) (hwb : b.wf = true) {h : Hunk} (hh : h ∈ diffM o a b) {q : Path}
+    (hpath : h.path = q ++ [.mset]) :
+    ∃ xs ys, RealS.navS o a q = some (.arr .raw xs) ∧ RealS.navS o b q = some (.arr .raw ys) ∧
+      (∀ z ∈ h.remove, z ∈ xs) ∧ (∀ z ∈ h.add, z ∈ ys) ∧
+      (∀ c, (h.remove.map (hashCode o)).count c =
+        (xs.map (hashCode o)).count c - (ys.map (hashCode o)).count c) ∧
+      (∀ c, (h.add.map (hashCode o)).count c =
+        (ys.map (hashCode o)).count c - (xs.map (hashCode o)).count c) ∧
+      (h.remove ≠ [] ∨ h.add ≠ []) ∧ h.before = [] ∧ h.after = [] ∧ h.merge = false := by
+  obtain ⟨xs, ys, na, nb, H⟩ := RealS.diffM_mset_hunk_members hm hp hmg hr hw hrb hwb hh hpath
+  exact ⟨xs, ys, na, nb, H.rem_mem, H.add_mem, H.rem_count, H.add_count, H.nonempty, H.before,
+    H.after, H.merge⟩
+
+/-- **clause 3, SET hunk, no hypothesis on hashes**: no removed value has the identity of an added
+    value of the same hunk -/
+theorem set_hunk_removed_added_apart {o : Opts} (hm : DES.SetReading o) (hp : precOf o = 0)
+    (hmg : isMerge o = false) {a b : Json} (hr : a.rawDoc = true) (hw : a.wf = true)
+    (hrb : b.rawDoc = true) (hwb : b.wf = true) {h : Hunk} (hh : h ∈ diffM o a b) {q : Path}
+    (hpath : h.path = q ++ [.set]) :
+    ∀ r ∈ h.remove, ∀ w ∈ h.add, identOf o r ≠ identOf o w := by
+  obtain ⟨_, _, _, _, H⟩ := RealS.diffM_set_hunk_members hm hp hmg hr hw hrb hwb hh hpath
+  exact H.apart
+
+/-- **clause 3, MULTISET hunk, no hypothesis on hashes**: no removed value has the hash code of an
+    added value of the same hunk -/
+theorem multiset_hunk_removed_added_apart {o : Opts} (hm : DES.SetReading o) (hp : precOf o = 0)
+    (hmg : isMerge o = false) {a b : Json} (hr : a.rawDoc = true) (hw : a.wf = true)
+    (hrb : b.rawDoc = true) (hwb : b.wf = true) {h : Hunk} (hh : h ∈ diffM o a b) {q : Path}
+    (hpath : h.path = q ++ [.mset]) :
+    ∀ r ∈ h.remove, ∀ w ∈ h.add, hashCode o r ≠ hashCode o w := by
+  obtain ⟨_, _, _, _, H⟩ := RealS.diffM_mset_hunk_members hm hp hmg hr hw hrb hwb hh hpath
+  exact H.apart
+
+/-- a removed member of a multiset hunk is in SURPLUS in the first array, an added member in the
+    second (occurrences counted by hash code, as the code does) -/
+theorem multiset_hunk_surplus {o : Opts} (hm : DES.SetReading o) (hp : precOf o = 0)
+    (hmg : isMerge o = false) {a b : Json} (hr : a.rawDoc = true) (hw : a.wf = true)
+    (hrb : b.rawDoc = true) (hwb : b.wf = true) {h : Hunk} (hh : h ∈ diffM o a b) {q : Path}
+    (hpath : h.path = q ++ [.mset]) :
+    ∃ xs ys, RealS.navS o a q = some (.arr .raw xs) ∧ RealS.navS o b q = some (.arr .raw ys) ∧
+      (∀ z ∈ h.remove, (ys.map (hashCode o)).count (hashCode o z) <
+        (xs.map (hashCode o)).count (hashCode o z)) ∧
+      (∀ z ∈ h.add, (xs.map (hashCode o)).count (hashCode o z) <
+        (ys.map (hashCode o)).count (hashCode o z)) := by
+  obtain ⟨xs, ys, na, nb, H⟩ := RealS.diffM_mset_hunk_members hm hp hmg hr hw hrb hwb hh hpath
+  exact ⟨xs, ys, na, nb, H.surplus⟩
+
+/-- **clause 3 up to `Equals`, every kind of hunk** (`FloatEq0`; `DocOk` documents): no removed value
+    is `Equals` to an added value of the same hunk -/
+theorem setmodes_removed_not_equals_added (F : FloatEq0) {o : Opts}
+    (hd : dispatchTag o = .set ∨ dispatchTag o = .mset) (hk : keysOf o = none) (hp : precOf o = 0)
+    (hmg : isMerge o = false) {a b : Json} (hr : a.rawDoc = true) (hw : a.wf = true)
+    (hrb : b.rawDoc = true) (hwb : b.wf = true) (da : DocOk a) (db : DocOk b) :
+    ∀ h ∈ diffM o a b, ∀ r ∈ h.remove, ∀ w ∈ h.add, equals o r w = false :=
+  fun h hh =>
+    (RealS.diffM_hunk_real (hd.elim (fun e => .inl ⟨e, hk⟩) .inr) hp hmg hr hw hrb hwb h hh).not_equals
+      F hd hk hp da db
+
+/-- **clause 2 up to `Equals`, SET hunk** (`FloatEq0`): a removed member has NO counterpart in the
+    array `b` holds (no member there is `Equals` to it), an added member none in the array `a` holds -/
+theorem set_hunk_no_counterpart (F : FloatEq0) {o : Opts} (hd : dispatchTag o = .set)
+    (hk : keysOf o = none) (hp : precOf o = 0) (hmg : isMerge o = false) {a b : Json}
+    (hr : a.rawDoc = true) (hw : a.wf = true) (hrb : b.rawDoc = true) (hwb : b.wf = true)
+    (da : DocOk a) (db : DocOk b) {h : Hunk} (hh : h ∈ diffM o a b) {q : Path}
+    (hpath : h.path = q ++ [.set]) :
+    ∃ xs ys, RealS.navS o a q = some (.arr .raw xs) ∧ RealS.navS o b q = some (.arr .raw ys) ∧
+      (∀ z ∈ h.remove, ∀ y ∈ ys, equals o z y = false) ∧
+      (∀ z ∈ h.add, ∀ x ∈ xs, equals o x z = false) := by
+  obtain ⟨xs, ys, na, nb, H⟩ :=
+    RealS.diffM_set_hunk_members (.inl ⟨hd, hk⟩) hp hmg hr hw hrb hwb hh hpath
+  have dxs := RealS.docOk_subterm da (RealS.navS_subterm o q a _ na)
+  have dys := RealS.docOk_subterm db (RealS.navS_subterm o q b _ nb)
+  exact ⟨xs, ys, na, nb,
+    H.no_counterpart F hd hk hp (fun _ hx => dxs.elem hx) (fun _ hy => dys.elem hy)⟩
+
+/-- **no hunk is empty** (documents without void object members: void stands for "absent", the
+    readers never produce it) -/
+theorem setmodes_no_empty_hunk {o : Opts} (hm : DES.SetReading o) (hp : precOf o = 0)
+    (hmg : isMerge o = false) {a b : Json} (hr : a.rawDoc = true) (hw : a.wf = true)
+    (hrb : b.rawDoc = true) (hwb : b.wf = true) (ma : memOK a = true) (mb : memOK b = true) :
+    ∀ h ∈ diffM o a b, h.remove ≠ [] ∨ h.add ≠ [] :=
+  fun h hh => (RealS.diffM_hunk_real hm hp hmg hr hw hrb hwb h hh).nonempty ma mb
+
+/-- **clause 1, "equal sub-documents are never mentioned"**: if `a` and `b` hold `Equals` values `v`,
+    `v'` at a location `q` reached through keys AND keyed set members (any depth), no hunk of
+    `a.Diff(b)` has a path at or below `q`. `DiffFaithful` on the nodes of the two equal values only;
+    FALSE without it (`equal_member_mentioned_alias_witness`) -/
+theorem setmodes_equal_subdocument_not_mentioned {o : Opts} (hm : DES.SetReading o)
+    (hp : precOf o = 0) (hmg : isMerge o = false) {a b : Json} (hr : a.rawDoc = true)
+    (hw : a.wf = true) (hrb : b.rawDoc = true) (hwb : b.wf = true) {q : Path}
+    (hq : RealS.navPath q = true) {v v' : Json} (hv : RealS.navS o a q = some v)
+    (hv' : RealS.navS o b q = some v') (he : equals o v v' = true)
+    (FH : DES.DiffFaithful o (Jd.subterms v) (Jd.subterms v')) :
+    ∀ h ∈ diffM o a b, ¬ q <+: h.path :=
+  RealS.diffM_equal_subdoc_not_mentioned hm hp hmg hr hw hrb hwb hq hv hv' he FH
+
+/-- the advertised one-level form: an object member with `Equals` values on both sides is not
+    mentioned (under any path prefix `p`) -/
+theorem setmodes_equal_member_not_mentioned {o : Opts} (hm : DES.SetReading o) (hp : precOf o = 0)
+    {kvs kvs' : List (String × Json)} (hr : (Json.obj kvs).rawDoc = true)
+    (hw : (Json.obj kvs).wf = true) (hrb : (Json.obj kvs').rawDoc = true)
+    (hwb : (Json.obj kvs').wf = true) {k : String} {v v' : Json}
+    (hl : alookup k kvs = some v) (hl' : alookup k kvs' = some v') (he : equals o v v' = true)
+    (FH : DES.DiffFaithful o (Jd.subterms v) (Jd.subterms v')) (p : Path) :
+    ∀ h ∈ diffNode o false (.obj kvs) (.obj kvs') p, ¬ (p ++ [PathElem.key k]) <+: h.path :=
+  RealS.equal_member_not_mentioned hm hp hr hw hrb hwb hl hl' he FH p
+
+/-- **clause 4, "no hunk is redundant", SET and MULTISET readings, ALL documents as read from text**
+    (arrays of anything, nested anywhere). Leave ANY single hunk `h` out of `a.Diff(b)`: whatever the
+    LIBRARY's `Patch` (`patchAll sw`, either variant of the keyed-member branch) makes of `a` with
+    the remaining hunks, if they apply at all, is not `Equals` to `b`. `DiffFaithful` between the
+    nodes of the two documents; FALSE without it (`redundant_hunk_alias_witness`,
+    `redundant_hunk_fnv_collision_witness`). No float hypothesis -/
+theorem setmodes_no_redundant_hunk {o : Opts} (hm : DES.SetReading o) (hp : precOf o = 0)
+    (hmg : isMerge o = false) {a b : Json} (hr : a.rawDoc = true) (hw : a.wf = true)
+    (hrb : b.rawDoc = true) (hwb : b.wf = true)
+    (FH : DES.DiffFaithful o (Jd.subterms a) (Jd.subterms b))
+    (d1 d2 : Diff) (h : Hunk) (hd : diffM o a b = d1 ++ h :: d2) (sw : Bool) (r : Json)
+    (hres : patchAll sw a (d1 ++ d2) = .ok r) : equals o r b = false :=
+  RealS.no_redundant_hunk hm hp hmg hr hw hrb hwb FH d1 d2 h hd sw r hres
+
+/-- clause 4 under the hypothesis family of C04 / C01 in the set modes: `setDoc` documents (plain
+    arrays, sorted keys, finite numbers, no `-0`), `HashFaithful` (equal hash codes only for
+    equivalent nodes), `FloatEq0` -/
+theorem setmodes_no_redundant_hunk_hashFaithful (F : FloatEq0) {o : Opts} (hm : DES.SetReading o)
+    (hp : precOf o = 0) (hmg : isMerge o = false) {a b : Json} (ha : a.setDoc = true)
+    (hb : b.setDoc = true) (HF : HashFaithful o (Jd.subterms a ++ Jd.subterms b))
+    (d1 d2 : Diff) (h : Hunk) (hd : diffM o a b = d1 ++ h :: d2) (sw : Bool) (r : Json)
+    (hres : patchAll sw a (d1 ++ d2) = .ok r) : equals o r b = false :=
+  RealS.no_redundant_hunk_hashFaithful F hm hp hmg ha hb HF d1 d2 h hd sw r hres
+
+/-- **the four items together for `jd -set` / `jd -mset`** (`o = [.set]` or `o = [.mset]`, documents as
+    read from text): every hunk is real; no hunk is empty; `Equals` sub-documents are never
+    mentioned; no hunk is redundant -/
+theorem setmodes_all_items {o : Opts} (ho : o = [.set] ∨ o = [.mset]) {a b : Json}
+    (hr : a.rawDoc = true) (hw : a.wf = true) (hrb : b.rawDoc = true) (hwb : b.wf = true) :
+    (∀ h ∈ diffM o a b, RealS.HunkReal o a b [] h) ∧
+    (memOK a = true → memOK b = true → ∀ h ∈ diffM o a b, h.remove ≠ [] ∨ h.add ≠ []) ∧
+    (∀ q v v', RealS.navPath q = true → RealS.navS o a q = some v → RealS.navS o b q = some v' →
+      equals o v v' = true → DES.DiffFaithful o (Jd.subterms v) (Jd.subterms v') →
+      ∀ h ∈ diffM o a b, ¬ q <+: h.path) ∧
+    (DES.DiffFaithful o (Jd.subterms a) (Jd.subterms b) →
+      ∀ d1 h d2, diffM o a b = d1 ++ h :: d2 →
+      ∀ sw r, patchAll sw a (d1 ++ d2) = .ok r → equals o r b = false) :=
+  RealS.c07_setmodes ho hr hw hrb hwb
+
+/-! ### Without `DiffFaithful` clauses 1 and 4 are FALSE on the code (class of KF-C04-alias)
+
+  `DES.Witness.wa` = `[{"a":""}]`, `DES.Witness.wb` = `[{"a":[]}]`; `RealS.Witness.ma` = `{"m":[{"a":""}]}`,
+  `RealS.Witness.mb` = `{"m":[{"a":[]}]}`; `DES.Witness.ca` = `["aedb68afb","b7cdeb749"]`,
+  `DES.Witness.cb` = `["a568b3ad2","b76a57d20"]`. All are documents as read from text. -/
+
+/-- clause 1 fails by ALIAS: the members at key `m` are `Equals` under SET (the empty string and the
+    empty array hash alike, so do the objects holding them), and yet the diff has a hunk below `m` -/
+theorem equal_member_mentioned_alias_witness :
+    RealS.Witness.ma.rawDoc = true ∧ RealS.Witness.ma.wf = true ∧
+    RealS.Witness.mb.rawDoc = true ∧ RealS.Witness.mb.wf = true ∧
+    RealS.navS [.set] RealS.Witness.ma [.key "m"] = some DES.Witness.wa ∧
+    RealS.navS [.set] RealS.Witness.mb [.key "m"] = some DES.Witness.wb ∧
+    equals [.set] DES.Witness.wa DES.Witness.wb = true ∧
+    ∃ h ∈ diffM [.set] RealS.Witness.ma RealS.Witness.mb, [PathElem.key "m"] <+: h.path :=
+  RealS.Witness.equal_member_mentioned_alias
+
+/-- clause 4 fails by ALIAS: the diff of `[{"a":""}]` and `[{"a":[]}]` under SET is ONE hunk, and
+    leaving it out — applying nothing — already gives a document `Equals` to the target -/
+theorem redundant_hunk_alias_witness (sw : Bool) :
+    ∃ h, diffM [.set] DES.Witness.wa DES.Witness.wb = [] ++ h :: [] ∧
+      patchAll sw DES.Witness.wa ([] ++ []) = .ok DES.Witness.wa ∧
+      equals [.set] DES.Witness.wa DES.Witness.wb = true :=
+  RealS.Witness.redundant_hunk_alias sw
+
+/-- clause 4 fails OUTRIGHT, no alias involved: a genuine FNV-1a 64 collision. Under SET and under
+    MULTISET the diff of the two arrays of strings is one hunk, and it is redundant: the two arrays
+    have the same hash code, so `Equals` already holds of the unpatched document -/
+theorem redundant_hunk_fnv_collision_witness (sw : Bool) : ∀ o ∈ [[Opt.set], [Opt.mset]],
+    ∃ h, diffM o DES.Witness.ca DES.Witness.cb = [] ++ h :: [] ∧
+      patchAll sw DES.Witness.ca ([] ++ []) = .ok DES.Witness.ca ∧
+      equals o DES.Witness.ca DES.Witness.cb = true :=
+  RealS.Witness.redundant_hunk_fnv_collision sw
+
+/-- why `memOK` in `setmodes_no_empty_hunk` (model only): a void object member that the other side
+    lacks gives a hunk that removes nothing and adds nothing -/
+theorem empty_hunk_void_member_witness (o : Opts) :
+    diffNode o false (.obj [("k", .void)]) (.obj []) [] = [{ path := [.key "k"] }] :=
+  RealS.Witness.empty_hunk_void_member o
+
+/-! ### Non-vacuity of section 6
+
+  `RealS.Example.exA` = `{"e":["p","q"],"n":{"s":["a","b",{"k":["x"]}]},"t":"u","v":"old","x":["k"]}`,
+  `RealS.Example.exB` = `{"e":["q","p"],"n":{"s":[{"k":["x"]},"b","d"]},"t":"u","v":"new","y":"added"}`:
+  four hunks in each reading (a set / multiset hunk two keys deep next to an equal object member
+  of the set, a replaced string, a removed array, an added member). Every structural hypothesis
+  holds (`ex_docs`), `DiffFaithful` holds in both readings (`ex_faithful_set`, `ex_faithful_mset`,
+  decided in the kernel), the diffs are not empty (`ex_diff_ne`), and leave-one-out sub-diffs do
+  apply (`#eval`s in JdProofs/RealDiffSet.lean). -/
+
+example : RealS.Example.exA.rawDoc = true ∧ RealS.Example.exA.wf = true ∧
+    RealS.Example.exB.rawDoc = true ∧ RealS.Example.exB.wf = true ∧
+    DES.DiffFaithful [.set] (Jd.subterms RealS.Example.exA) (Jd.subterms RealS.Example.exB) ∧
+    DES.DiffFaithful [.mset] (Jd.subterms RealS.Example.exA) (Jd.subterms RealS.Example.exB) ∧
+    diffM [.set] RealS.Example.exA RealS.Example.exB ≠ [] ∧
+    diffM [.mset] RealS.Example.exA RealS.Example.exB ≠ [] :=
+  ⟨RealS.Example.ex_docs.1, RealS.Example.ex_docs.2.1, RealS.Example.ex_docs.2.2.1,
+    RealS.Example.ex_docs.2.2.2.1, RealS.Example.ex_faithful_set, RealS.Example.ex_faithful_mset,
+    RealS.Example.ex_diff_ne.1, RealS.Example.ex_diff_ne.2⟩
+
+/-- whatever hunk is left out of the example diff, the rest does not give the target (SET) -/
+example (d1 d2 : Diff) (h : Hunk)
+    (hd : diffM [.set] RealS.Example.exA RealS.Example.exB = d1 ++ h :: d2) (sw : Bool) (r : Json)
+    (hres : patchAll sw RealS.Example.exA (d1 ++ d2) = .ok r) :
+    equals [.set] r RealS.Example.exB = false :=
+  setmodes_no_redundant_hunk (.inl ⟨rfl, rfl⟩) rfl rfl RealS.Example.ex_docs.1
+    RealS.Example.ex_docs.2.1 RealS.Example.ex_docs.2.2.1 RealS.Example.ex_docs.2.2.2.1
+    RealS.Example.ex_faithful_set d1 d2 h hd sw r hres
+
+/-- … and MULTISET -/
+example (d1 d2 : Diff) (h : Hunk)
+    (hd : diffM [.mset] RealS.Example.exA RealS.Example.exB = d1 ++ h :: d2) (sw : Bool) (r : Json)
+    (hres : patchAll sw RealS.Example.exA (d1 ++ d2) = .ok r) :
+    equals [.mset] r RealS.Example.exB = false :=
+  setmodes_no_redundant_hunk (.inr rfl) rfl rfl RealS.Example.ex_docs.1
+    RealS.Example.ex_docs.2.1 RealS.Example.ex_docs.2.2.1 RealS.Example.ex_docs.2.2.2.1
+    RealS.Example.ex_faithful_mset d1 d2 h hd sw r hres
+
+/-- the set hunk at `n.s` of the example removes members of `["a","b",{"k":["x"]}]`, adds members of
+    `[{"k":["x"]},"b","d"]`, and the two are apart -/
+example {h : Hunk} (hh : h ∈ diffM [.set] RealS.Example.exA RealS.Example.exB)
+    (hpath : h.path = [.key "n", .key "s"] ++ [.set]) :
+    ∀ r ∈ h.remove, ∀ w ∈ h.add, identOf [.set] r ≠ identOf [.set] w :=
+  set_hunk_removed_added_apart (.inl ⟨rfl, rfl⟩) rfl rfl RealS.Example.ex_docs.1
+    RealS.Example.ex_docs.2.1 RealS.Example.ex_docs.2.2.1 RealS.Example.ex_docs.2.2.2.1 hh hpath
+
+/-- the `Equals` members at `e` (`["p","q"]` / `["q","p"]`) are not mentioned, in the SET reading -/
+example : ∀ h ∈ diffM [.set] RealS.Example.exA RealS.Example.exB,
+    ¬ [PathElem.key "e"] <+: h.path :=
+  setmodes_equal_subdocument_not_mentioned (.inl ⟨rfl, rfl⟩) rfl rfl RealS.Example.ex_docs.1
+    RealS.Example.ex_docs.2.1 RealS.Example.ex_docs.2.2.1 RealS.Example.ex_docs.2.2.2.1
+    (q := [.key "e"]) rfl (v := .arr .raw [.str "p", .str "q"])
+    (v' := .arr .raw [.str "q", .str "p"]) rfl rfl (by decide +kernel)
+    (DES.diffFaithful_of_check (by decide +kernel))
 
 end Jd.Props.C07
